@@ -527,7 +527,10 @@ class Unit:
         for e in elems:
             mm = re.match(r'impl\s+(?:([\w:<>,&\'\s]+?)\s+for\s+)?(\w+)$', e)
             if mm:
-                qual.append(('<%s as %s>' % (mm.group(2), mm.group(1))) if mm.group(1) else mm.group(2))
+                tr = re.sub(r'\s+', '', mm.group(1)) if mm.group(1) else None
+                if tr:
+                    tr = re.sub(r'^(\w+::)+', '', tr)
+                qual.append(('<%s as %s>' % (mm.group(2), tr)) if tr else mm.group(2))
             else:
                 qual.append(e.split()[-1])
         fid = '::'.join(qual)
